@@ -190,6 +190,8 @@ pub fn holder_alphabet() -> Vec<HoldOp> {
         HoldOp { name: "p1_nokb", sel: obj(json!({"a": true})), kb: 0, fails: false },
         HoldOp { name: "fail_unknown_object", sel: obj(json!({"zz": {"q": true}})), kb: 1, fails: true },
         HoldOp { name: "fail_kb_alg_not_for_this_key", sel: obj(json!({"a": true})), kb: 4, fails: true },
+        // nonce and audience but no key: an error on a fresh instance, hence an error after any history
+        HoldOp { name: "fail_nonce_aud_without_key", sel: obj(json!({"a": true})), kb: 5, fails: true },
         // fails only after genuine hidden claims were already picked
         HoldOp { name: "fail_after_selecting", sel: obj(json!({"a": true, "b": {"c": true}, "d": [true, true], "zz": true})), kb: 0, fails: true },
     ]
@@ -201,6 +203,7 @@ fn kb_of(op: &HoldOp) -> KbArgs {
     match op.kb {
         0 => KbArgs::none(),
         3 => KbArgs { nonce: Some(N[1].into()), aud: None, key: None, alg: None },
+        5 => KbArgs { nonce: Some(N[1].into()), aud: Some(A[1].into()), key: None, alg: None },
         // EdDSA asked for with an EC key: this call must fail and must not affect later ones
         4 => KbArgs { nonce: Some(N[1].into()), aud: Some(A[1].into()), key: Hk::Es.enc(0), alg: Some("EdDSA".into()) },
         k => KbArgs { nonce: Some(N[k as usize].into()), aud: Some(A[k as usize].into()), key: Hk::Es.enc(0), alg: Some("ES256".into()) },
@@ -366,7 +369,7 @@ pub fn run(rep: &Report) {
         };
         let hs = sequences(ha.len(), full_len);
         par_for(rep, hs.len(), |i, l| run_holder_seq(&cred, &ha, &hs[i], l));
-        rep.scope_done(json!({"scope": format!("holder built from a {} SD-JWT: every sequence of length <= {full_len} over the 12-operation alphabet (7 succeeding, 5 failing)", fmt.name()), "sequences": hs.len()}));
+        rep.scope_done(json!({"scope": format!("holder built from a {} SD-JWT: every sequence of length <= {full_len} over the 13-operation alphabet (7 succeeding, 6 failing)", fmt.name()), "sequences": hs.len()}));
         let hcore_ids: Vec<usize> = if quick { vec![2, 1, 3] } else { vec![2, 1, 3, 4, 11] };
         let hcore: Vec<HoldOp> = hcore_ids.iter().map(|i| ha[*i].clone()).collect();
         let hl = sequences(hcore.len(), long_len);
